@@ -93,6 +93,41 @@ def make_struct(case):
     return run
 
 
+def make_bits(case):
+    """Enum/flag typed bit-fields: shared storage unit of the underlying type, values preserved, dump inverse."""
+    name, base, members, flag = case["decl"]
+    ET = _T(name, base, members, flag)
+    cfg = case["cfg"]
+    w = H.layout(cfg).size_align(base)[0]
+    nb = 8 * w
+    T = ["struct", "test", [["x", ET, 3], ["y", ET, nb - 5], ["z", ET, 2], ["t", G.U8, None], ["u", base, 4], ["v", ET, 4]], False]
+    cs, cls = H.load(T, cfg)
+
+    def run(ctx):
+        n = H.input_len(T, cfg)
+        data = ctx.bytes("b", n)
+        ref = H.ref_parser(ctx, cfg)
+        rv, rpos = ref.parse(T, data, 0)
+        ctx.check("layout: enum bit-fields share the storage unit of their underlying type", len(cls) == H.layout(cfg).size_align(T)[0],
+                  f"{cls.size}")
+        s = ctx.stream(data)
+        try:
+            v = cls.read(s)
+        except Exception as ex:  # noqa: BLE001
+            ctx.check("struct with enum bit-fields parses", False, H.classify(ex))
+            return
+        ctx.check("consumed = reference extent", s.tell() == rpos)
+        for fname in ("x", "y", "z", "v"):
+            ctx.check(f"{fname}: enum bit-field carries exactly the bits read", getattr(v, fname).value == rv[fname])
+        ctx.check("u: plain bit-field after the enum ones", v.u == rv["u"])
+        try:
+            o = v.dumps()
+            ctx.check("dump reproduces the data bits", R.And(*[(o[i] & ref.mask.get(i, 0)) == (data[i] & ref.mask.get(i, 0)) for i in range(len(o))]))
+        except Exception as ex:  # noqa: BLE001
+            ctx.check("dumps", False, H.classify(ex))
+    return run
+
+
 def make_eq(case):
     """Equality and hash over two symbolic values and two classes of the same underlying type."""
     name, base, members, flag = case["decl"]
@@ -237,6 +272,8 @@ def cases(tier, seed):
                 yield {"label": f"scalar {d[0]}", "decl": list(d), "cfg": cfg}
                 yield {"label": f"eq {d[0]}", "decl": list(d), "cfg": cfg, "make": "make_eq"}
             yield {"label": f"struct {d[0]}", "decl": list(d), "cfg": cfg, "make": "make_struct"}
+            if not d[1][2] and d[1][1] in (1, 2, 4):   # unsigned 8/16/32-bit underlying types (fork count stays small)
+                yield {"label": f"bits {d[0]}", "decl": list(d), "cfg": cfg, "make": "make_bits"}
     import itertools
     atoms = ["auto", "K0", "K1+1", "prev", "prevor"]
     n = 4 if tier == "quick" else 5
